@@ -29,6 +29,7 @@ func Minimise(p *Plan, t *Trace, findings []Finding) *Trace {
 		c.Sig, c.What = v.Sig, v.What
 		return true
 	}
+	expired := func() bool { return time.Now().After(deadline) }
 	cur := t
 	changed := true
 	for changed && time.Now().Before(deadline) {
@@ -36,6 +37,9 @@ func Minimise(p *Plan, t *Trace, findings []Finding) *Trace {
 		// drop chunks of ops, then single ops
 		for chunk := len(cur.Ops) / 2; chunk >= 1; chunk /= 2 {
 			for i := 0; i+chunk <= len(cur.Ops); {
+				if expired() {
+					break
+				}
 				c := cur.Clone()
 				c.Ops = append(append([]Op(nil), cur.Ops[:i]...), cur.Ops[i+chunk:]...)
 				if try(c) {
@@ -49,6 +53,9 @@ func Minimise(p *Plan, t *Trace, findings []Finding) *Trace {
 		// drop blocks from batches
 		for i := range cur.Ops {
 			for j := 0; len(cur.Ops[i].Blks) > 1 && j < len(cur.Ops[i].Blks); {
+				if expired() {
+					break
+				}
 				c := cur.Clone()
 				c.Ops[i].Blks = append(append([]BlkSpec(nil), cur.Ops[i].Blks[:j]...), cur.Ops[i].Blks[j+1:]...)
 				if try(c) {
@@ -64,6 +71,9 @@ func Minimise(p *Plan, t *Trace, findings []Finding) *Trace {
 			for j := range cur.Ops[i].Blks {
 				for _, n := range []int{0, 1, 8} {
 					if cur.Ops[i].Blks[j].Size > n {
+						if expired() {
+							break
+						}
 						c := cur.Clone()
 						c.Ops[i].Blks[j].Size = n
 						if try(c) {
@@ -87,6 +97,9 @@ func Minimise(p *Plan, t *Trace, findings []Finding) *Trace {
 			},
 		}
 		for _, m := range mods {
+			if expired() {
+				break
+			}
 			c := cur.Clone()
 			before, _ := jsonOf(c.Cfg)
 			m(&c.Cfg)
@@ -101,6 +114,9 @@ func Minimise(p *Plan, t *Trace, findings []Finding) *Trace {
 		}
 		// faults, continuation
 		for i := 0; i < len(cur.Faults) && len(cur.Faults) > 1; {
+			if expired() {
+				break
+			}
 			c := cur.Clone()
 			c.Faults = append(append([]FaultSpec(nil), cur.Faults[:i]...), cur.Faults[i+1:]...)
 			if try(c) {
@@ -112,6 +128,9 @@ func Minimise(p *Plan, t *Trace, findings []Finding) *Trace {
 		}
 		if cur.Crash != nil {
 			for i := 0; i < len(cur.Crash.Cont); {
+				if expired() {
+					break
+				}
 				c := cur.Clone()
 				c.Crash.Cont = append(append([]BlkSpec(nil), cur.Crash.Cont[:i]...), cur.Crash.Cont[i+1:]...)
 				if try(c) {
